@@ -2,6 +2,7 @@ package props
 
 import (
 	"net"
+	"os"
 
 	"pgregory.net/rapid"
 
@@ -178,3 +179,13 @@ func uniformInt(t *rapid.T, n int, label string) int {
 
 // pick draws uniformly from a (weighted by repetition) list.
 func pick[T any](t *rapid.T, label string, xs ...T) T { return xs[uniformInt(t, len(xs), label)] }
+
+// deep scales the upper size bounds of generated scenarios: 1 in the quick tier, 3 in the thorough
+// tier (VERIF_TIER is set by the driver), where half of the cases use the larger bound. Scenarios
+// saved by one tier replay unchanged in the other (sizes are part of the scenario).
+func deep(t *rapid.T, n int) int {
+	if os.Getenv("VERIF_TIER") == "thorough" && rapid.Bool().Draw(t, "deep") {
+		return 3 * n
+	}
+	return n
+}
